@@ -15,7 +15,7 @@ var opCode = map[string]datatransfer.EventCode{
 	"Accept": datatransfer.Accept, "TransferInitiated": datatransfer.TransferInitiated, "FinishTransfer": datatransfer.FinishTransfer,
 	"ResponderCompletes": datatransfer.ResponderCompletes, "ResponderBeginsFinalization": datatransfer.ResponderBeginsFinalization,
 	"Complete": datatransfer.Complete, "BeginFinalizing": datatransfer.BeginFinalizing, "Cancel": datatransfer.Cancel, "Error": datatransfer.Error,
-	"Opened": datatransfer.Opened, "Restart": datatransfer.Restart, "CompleteCleanupOnRestart": datatransfer.CompleteCleanupOnRestart,
+	"CreateDuplicate": datatransfer.EventCode(-1), "Opened": datatransfer.Opened, "Restart": datatransfer.Restart, "CompleteCleanupOnRestart": datatransfer.CompleteCleanupOnRestart,
 	"DataReceivedNext": datatransfer.DataReceived, "DataQueuedNext": datatransfer.DataQueued, "DataSentNext": datatransfer.DataSent,
 	"DataReceivedReplay1": datatransfer.DataReceived,
 	"PauseInitiator":      datatransfer.PauseInitiator, "ResumeInitiator": datatransfer.ResumeInitiator,
@@ -81,8 +81,28 @@ func r3Diff(b, a views.Vec) string {
 	return d
 }
 
+// lastCtx is handed to the optional onLast hook for the last operation of a history.
+type lastCtx struct {
+	s             *Sys
+	chid          datatransfer.ChannelID
+	role          Role
+	op            Op
+	applied       bool
+	before, after views.Vec
+	st            datatransfer.ChannelState
+	evs           []Ev
+	evBase        int // index of the first event of this operation
+	writesBefore  int
+	cleanBefore   int
+	unprotBefore  int
+	sp            spec
+	viol          func(prop, sig, msg string)
+}
+
 // closureOpts selects what a closure run explores.
 type closureOpts struct {
+	onLast      func(lc *lastCtx)
+	noBuiltin   bool // skip the built-in transition oracles (hook only)
 	role        Role
 	roleConsist bool // restrict to the role-consistent alphabet
 	fullKey     bool
@@ -151,6 +171,8 @@ func runClosure(x *mc.Cell, o closureOpts) {
 						return
 					}
 					nEv := s.NumEvents()
+					writesBefore := s.DS.NumWrites()
+					cleanBefore, unprotBefore := s.Env.Counts(chid)
 					_ = s.Apply(ops[oi], chid, cur)
 					st, err := s.Get(chid)
 					if err != nil {
@@ -194,6 +216,38 @@ func runClosure(x *mc.Cell, o closureOpts) {
 						rep := mc.BFSReplay(o.name, hist, opName)
 						viol := func(prop, sig, msg string) {
 							x.Violate(prop, sig, fmt.Sprintf("%s [%s] history=%v: %s\n  before: %s\n  after:  %s", o.name, RoleNames[o.role], histNames(hist, opName), msg, before, after), rep)
+						}
+						if o.onLast != nil {
+							o.onLast(&lastCtx{s: s, chid: chid, role: o.role, op: op, applied: applied, before: before, after: after, st: st, evs: evs, evBase: nEv,
+								writesBefore: writesBefore, cleanBefore: cleanBefore, unprotBefore: unprotBefore, sp: sp, viol: viol})
+						}
+						if o.noBuiltin {
+							goto next
+						}
+						// C09 (strong form, nothing held): entering a terminal status happens with exactly one cleanup + one unprotect
+						{
+							c2, u2 := s.Env.Counts(chid)
+							dc, du := c2-cleanBefore, u2-unprotBefore
+							if !wasTerminal && Terminal(after.Status) {
+								if dc != 1 || du != 1 {
+									viol("C09", fmt.Sprintf("L1;ending=%s;from=%s;cleanups=%d;unprotects=%d", op.Name, datatransfer.Statuses[before.Status], dc, du),
+										fmt.Sprintf("channel ended in %s with %d CleanupChannel and %d Unprotect calls (want exactly 1 and 1)", datatransfer.Statuses[after.Status], dc, du))
+								}
+							} else if dc != 0 || du != 0 {
+								viol("C09", fmt.Sprintf("L1;spurious-cleanup;op=%s;from=%s", op.Name, datatransfer.Statuses[before.Status]), fmt.Sprintf("%d cleanup / %d unprotect calls without an ending", dc, du))
+							}
+							if after.Status == datatransfer.Cancelling || after.Status == datatransfer.Failing || after.Status == datatransfer.Completing {
+								viol("C09", "L1;stuck-in="+datatransfer.Statuses[after.Status]+";op="+op.Name, "channel did not settle in a terminal status without further input")
+							}
+						}
+						// C18: duplicate creation is refused and changes nothing
+						if op.Name == "CreateDuplicate" {
+							if s.lastDupErr == nil {
+								viol("C18", "L1;duplicate-create-accepted;status="+datatransfer.Statuses[before.Status], "CreateNew for an existing channel ID returned no error")
+							}
+							if before.String() != after.String() || len(evs) > 0 {
+								viol("C18", "L1;duplicate-create-changed-state;status="+datatransfer.Statuses[before.Status], "CreateNew for an existing channel ID changed the channel or emitted events")
+							}
 						}
 						// C02: terminal is absorbing
 						if wasTerminal {
@@ -271,6 +325,7 @@ func runClosure(x *mc.Cell, o closureOpts) {
 							viol("C19", "logs-not-append-only;op="+op.Name, "voucher / voucher-result log is not an extension of the previous one")
 						}
 					}
+				next:
 					prevV, prevR = st.Vouchers(), st.VoucherResults()
 					cur = after
 				}
